@@ -674,6 +674,17 @@ def _parse(path: str, src: str) -> ast.Module:
     return t
 
 
+def normalise_pattern(tree: ast.Module) -> ast.Module:
+    """the normal form of function bodies, applied to a pattern (a module holding statements)"""
+    n = _Normalise()
+    n.depth = 1
+    tree = n.visit(tree)
+    n.depth = 1
+    tree.body = n._hoist(tree.body)
+    inline_single_use_temporaries(tree)
+    return tree
+
+
 def inline_single_use_temporaries(fn: ast.AST) -> None:
     """In place: `x = e; return x` -> `return e` and `x = e; raise C(x)` -> `raise C(e)` when the name x is stored exactly
     only by such assignments and loaded only by the statement that follows them (nested functions included).  Introducing or removing such a temporary
@@ -748,6 +759,8 @@ class _Normalise(ast.NodeTransformer):
     * `logger.debug(...)` / `logger.info(...)` statements are dropped (tracing is not behaviour for any property here;
       warnings and errors stay);
     * `n = n + 1` (plain name, numeric constant) is `n += 1`;
+    * `if <negative test>: A else: B` is `if <positive test>: B else: A` (`not x`, `is not`, `!=`, `not in`; not for elif chains);
+    * an `else` after a branch that ends with return / raise / continue / break is hoisted behind the `if`;
     * `x = e` immediately followed by `return x` or `raise C(x)`, x being written once and read once in the whole
       function, is `return e` / `raise C(e)` (see inline_single_use_temporaries).
     """
@@ -759,8 +772,7 @@ class _Normalise(ast.NodeTransformer):
         self.depth += 1
         self.generic_visit(node)
         self.depth -= 1
-        if self.depth == 0 or True:
-            inline_single_use_temporaries(node)
+        inline_single_use_temporaries(node)
         for field in ('body',):
             if not getattr(node, field):
                 setattr(node, field, [ast.copy_location(ast.Pass(), node)])
@@ -796,13 +808,75 @@ class _Normalise(ast.NodeTransformer):
             return None
         return node
 
+    def visit_If(self, node):
+        self.generic_visit(node)
+        if not self.depth or not node.orelse:
+            return node
+        jump = (ast.Return, ast.Raise, ast.Continue, ast.Break)
+        if node.body and isinstance(node.body[-1], jump):
+            return node  # the else branch is hoisted behind the `if` by the enclosing block
+        if isinstance(node.orelse[-1], jump):
+            # `if c: A else: ...; raise` is `if not c: ...; raise` followed by A
+            node.test = _negate(node.test)
+            node.body, node.orelse = node.orelse, node.body
+            return node
+        # a negative test with an else branch is the positive test with the arms swapped
+        if not (len(node.orelse) == 1 and isinstance(node.orelse[0], ast.If)):
+            pos = _positive(node.test)
+            if pos is not None:
+                node.test = pos
+                node.body, node.orelse = node.orelse, node.body
+        return node
+
+    def _hoist(self, stmts: list) -> list:
+        """`if c: ...; return/raise/continue/break` followed by `else: rest` is the same `if` followed by rest"""
+        out = []
+        for st in stmts:
+            out.append(st)
+            if isinstance(st, ast.If) and st.orelse and st.body and isinstance(st.body[-1], (ast.Return, ast.Raise, ast.Continue, ast.Break)):
+                rest, st.orelse = st.orelse, []
+                out.extend(self._hoist(rest))
+        return out
+
     def generic_visit(self, node):
         super().generic_visit(node)
         # a compound statement whose block lost all its statements keeps a `pass`
         for field in ('body', 'orelse', 'finalbody'):
             if field in ('body',) and isinstance(node, (ast.If, ast.For, ast.While, ast.With, ast.Try, ast.ExceptHandler)) and getattr(node, field, None) == []:
                 setattr(node, field, [ast.copy_location(ast.Pass(), node)])
+            v = getattr(node, field, None)
+            if self.depth and isinstance(v, list) and v and isinstance(v[0], ast.stmt):
+                setattr(node, field, self._hoist(v))
         return node
+
+
+def _is_pattern_gap_only(stmts: list) -> bool:
+    """(patterns only) a branch that is just the `___` gap says nothing about its content"""
+    return len(stmts) == 1 and isinstance(stmts[0], ast.Expr) and isinstance(stmts[0].value, ast.Name) and stmts[0].value.id == '___'
+
+
+def _negate(test: ast.expr) -> ast.expr:
+    pos = _positive(test)
+    if pos is not None:
+        return pos
+    if isinstance(test, ast.Compare) and len(test.ops) == 1:
+        swap = {ast.Is: ast.IsNot, ast.Eq: ast.NotEq, ast.In: ast.NotIn}
+        for a, b in swap.items():
+            if isinstance(test.ops[0], a):
+                return ast.copy_location(ast.Compare(left=test.left, ops=[b()], comparators=test.comparators), test)
+    return ast.copy_location(ast.UnaryOp(op=ast.Not(), operand=test), test)
+
+
+def _positive(test: ast.expr):
+    """the positive form of a negative test (`not x`, `a is not b`, `a != b`, `a not in b`), or None"""
+    if isinstance(test, ast.UnaryOp) and isinstance(test.op, ast.Not):
+        return test.operand
+    if isinstance(test, ast.Compare) and len(test.ops) == 1:
+        swap = {ast.IsNot: ast.Is, ast.NotEq: ast.Eq, ast.NotIn: ast.In}
+        for neg, pos in swap.items():
+            if isinstance(test.ops[0], neg):
+                return ast.copy_location(ast.Compare(left=test.left, ops=[pos()], comparators=test.comparators), test)
+    return None
 
 
 def load_sources(repo: str = REPO) -> dict[str, str]:
